@@ -128,6 +128,30 @@ func catalogue() []pert {
 			add("enc-usage-3-instead-of-8", "reject", func(w *world, c cfgKey, r *simkdc.Reply, rnd *vh.Rand) { r.EncUsage = 3 }, rc4)
 			add("enc-usage-2", "reject", func(w *world, c cfgKey, r *simkdc.Reply, rnd *vh.Rand) { r.EncUsage = 2 }, nil)
 		}
+		// the neighbouring key usage numbers of RFC 4120 7.5.1 and numbers far away: whatever the exchange, the encrypted part is
+		// sealed under the right key with a usage number that is not the one of this message (AS: 3; TGS under the session key: 8;
+		// 9 belongs to a sub-session key the request never offered). rc4-hmac: RFC 4757 maps 3, 8 and 9 to one value.
+		right := uint32(8)
+		if ex == "AS" {
+			right = 3
+		}
+		for _, u := range []uint32{9, 7, 11, 12} {
+			u := u
+			var skip func(c cfgKey) bool
+			if u == 9 {
+				skip = rc4
+			}
+			add(fmt.Sprintf("enc-usage-%d", u), "reject", func(w *world, c cfgKey, r *simkdc.Reply, rnd *vh.Rand) { r.EncUsage = u }, skip)
+		}
+		add("enc-usage-plus-256", "reject", func(w *world, c cfgKey, r *simkdc.Reply, rnd *vh.Rand) { r.EncUsage = right + 256 }, nil)
+		add("enc-usage-plus-2^16", "reject", func(w *world, c cfgKey, r *simkdc.Reply, rnd *vh.Rand) { r.EncUsage = right + 1<<16 }, nil)
+		add("enc-usage-random-other", "reject", func(w *world, c cfgKey, r *simkdc.Reply, rnd *vh.Rand) {
+			u := uint32(1 + rnd.Intn(1024))
+			for u == 3 || u == 8 || u == 9 {
+				u = uint32(1 + rnd.Intn(1024))
+			}
+			r.EncUsage = u
+		}, nil)
 		for i := 0; i < 3; i++ {
 			add(fmt.Sprintf("cipher-bitflip-%d", i), "reject", func(w *world, c cfgKey, r *simkdc.Reply, rnd *vh.Rand) {
 				r.CipherMut = func(b []byte) []byte {
@@ -147,6 +171,28 @@ func catalogue() []pert {
 		add("nonce-plus-1", "reject", func(w *world, c cfgKey, r *simkdc.Reply, rnd *vh.Rand) { r.Enc.Nonce++ }, nil)
 		add("nonce-minus-1", "reject", func(w *world, c cfgKey, r *simkdc.Reply, rnd *vh.Rand) { r.Enc.Nonce-- }, nil)
 		add("nonce-zero", "reject", func(w *world, c cfgKey, r *simkdc.Reply, rnd *vh.Rand) { r.Enc.Nonce = 0 }, nil)
+		// the nonce the reply carries is another NUMBER than the one of the request: equal to it only modulo 2^32 (an INTEGER outside
+		// the UInt32 range of RFC 4120 5.2.4), or differing in the top bit, in the sign, in the upper half, or in everything
+		wide := func(name string, f func(n int64, rnd *vh.Rand) (int64, bool)) {
+			add(name, "reject", func(w *world, c cfgKey, r *simkdc.Reply, rnd *vh.Rand) {
+				n := int64(r.Enc.Nonce)
+				v, ok := f(n, rnd)
+				if !ok || v == n {
+					w.na = true
+					return
+				}
+				r.Enc.NonceWide = &v
+			}, nil)
+		}
+		wide("nonce-plus-2^32", func(n int64, rnd *vh.Rand) (int64, bool) { return n + 1<<32, true })
+		// n-2^32 for n >= 2^31 is how a KDC that holds the nonce in a signed 32 bit integer writes n itself: not judged
+		wide("nonce-minus-2^32", func(n int64, rnd *vh.Rand) (int64, bool) { return n - 1<<32, n < 1<<31 })
+		wide("nonce-plus-multiple-of-2^32", func(n int64, rnd *vh.Rand) (int64, bool) { return n + int64(2+rnd.Intn(1<<20))<<32, true })
+		wide("nonce-minus-multiple-of-2^32", func(n int64, rnd *vh.Rand) (int64, bool) { return n - int64(2+rnd.Intn(1<<20))<<32, true })
+		wide("nonce-top-bit-flipped", func(n int64, rnd *vh.Rand) (int64, bool) { return n ^ 1<<31, true })
+		wide("nonce-negated", func(n int64, rnd *vh.Rand) (int64, bool) { return -n, n != 0 && n != 1<<31 }) // -2^31 is the signed form of 2^31
+		wide("nonce-low-16-bits-only", func(n int64, rnd *vh.Rand) (int64, bool) { return n & 0xffff, true })
+		wide("nonce-random-other", func(n int64, rnd *vh.Rand) (int64, bool) { return int64(rnd.Intn(1 << 31)), true })
 		add("cname-changed", "reject", func(w *world, c cfgKey, r *simkdc.Reply, rnd *vh.Rand) { r.Rep.CName = kmsg.N(1, "mallory") }, nil)
 		add("cname-extra-component", "reject", func(w *world, c cfgKey, r *simkdc.Reply, rnd *vh.Rand) {
 			r.Rep.CName = kmsg.N(1, append(append([]string{}, r.Rep.CName.Parts...), "admin")...)
@@ -292,10 +338,12 @@ func TestProp(t *testing.T) {
 	}
 	r.SetRule("a gokrb5 client (password and keytab credentials x six etypes x three pre-authentication policies x noaddresses) performs AS and TGS exchanges over loopback UDP against a simulated KDC built on the reference encoder/crypto, under a virtual clock; " +
 		"the KDC produces the correct reply and applies ONE named perturbation (tagged rejecting / neutral / observe-only from RFC 4120 3.1.5, 3.3.4 and the statement): other key, other key usage, bit flips and truncations of the ciphertext, nonce, cname, crealm, sname, srealm, ticket realm, " +
-		"addresses, authtime/starttime at and beyond the skew, wrong message type, stale reply; plus one flipped bit per ciphertext byte for one configuration, plus every KRB-ERROR code 1..93 and an unknown one. distinct = (config, exchange, perturbation); all non-trivial")
+		"addresses, authtime/starttime at and beyond the skew, wrong message type, stale reply; the nonce perturbations include values equal to the request nonce only modulo 2^32 (INTEGERs outside UInt32), the usage perturbations the neighbouring numbers 3/8/9, 7, 11, 12 and distant ones; " +
+		"after a rejected reply the KDC turns honest and the SAME client is asked again (two-step history): neither the ticket cache, nor the next result for that service, nor the TGT of a later TGS request may come from the rejected reply; plus one flipped bit per ciphertext byte for one configuration, plus every KRB-ERROR code 1..93 and an unknown one. distinct = (config, exchange, perturbation); all non-trivial")
 	r.Assume("simulated KDC (simkdc over ref/kmsg, ref/kcrypto) is RFC 4120 conformant for the exchanges driven; unperturbed replies must be accepted (checked in every configuration)")
 	r.Note("observe-only: outer ticket realm/sname of an AS reply, sname inside a TGS reply's encrypted part, caddr in an AS reply when the request carried none, KRB-ERROR 68 (the client follows the referral to the error's crealm)")
-	r.Note("RFC 4757 aliases key usages 3, 8 and 9 for rc4-hmac: the usage perturbations 3<->8 are skipped for etype 23")
+	r.Note("RFC 4757 aliases key usages 3, 8 and 9 for rc4-hmac: the usage perturbations among 3, 8 and 9 are skipped for etype 23")
+	r.Note("two-step histories judge only by the session keys the rejected replies carried (fresh random values of the simulated KDC); a failing or otherwise unexplained second request is counted (observe_followup_*), not judged")
 
 	cat := catalogue()
 	var cfgs []cfgKey
@@ -436,6 +484,11 @@ func TestProp(t *testing.T) {
 	r.Require("krb_error_code_surfaced", 150)
 	r.Require("cipher_byte_flips_rejected", 300)
 	r.Require("stale_reply_rejected", 100)
+	r.Require("nonce_perturbations_rejected", 2000)
+	r.Require("usage_perturbations_rejected", 1500)
+	r.Require("followup_cache_clean_after_rejected_tgs_reply", 1200)
+	r.Require("followup_fresh_result_after_rejected_TGS_reply", 1200)
+	r.Require("followup_fresh_result_after_rejected_AS_reply", 400)
 }
 
 func runCase(t *testing.T, r *vh.Run, w *world, ck string, c cfgKey, p *pert, byt int, code int32) {
@@ -446,6 +499,9 @@ func runCase(t *testing.T, r *vh.Run, w *world, ck string, c cfgKey, p *pert, by
 	applied := 0
 	skipped := false
 	var lastOK []byte
+	var fu followUp
+	// the two-step histories: every rejecting case under the thorough tier, a PRNG-chosen third of them under the quick tier
+	follow := byt < 0 && p.kind == "reject" && (vh.Thorough() || vh.NewRand("c09-followup", ck).Intn(3) == 0)
 	pcommon.AtVirtual(t, time.Hour, func() {
 		w.now.Store(time.Now().UnixNano())
 		w.k.ResetLogs()
@@ -486,6 +542,11 @@ func runCase(t *testing.T, r *vh.Run, w *world, ck string, c cfgKey, p *pert, by
 			default:
 				p.apply(w, c, rp, rnd)
 			}
+			if p.kind == "reject" && !p.stale {
+				// what this reply hands over must never reach the caller, now or later
+				fu.rejectedKeys = append(fu.rejectedKeys, append([]byte{}, rp.Enc.Key.Value...), append([]byte{}, rp.TktModel.Key.Value...))
+				fu.rejectedNames = append(fu.rejectedNames, rp.Tkt.SName.String())
+			}
 		}
 		pnc, pv, pw = vh.Guard(func() {
 			defer pcommon.Teardown(cl)
@@ -516,7 +577,12 @@ func runCase(t *testing.T, r *vh.Run, w *world, ck string, c cfgKey, p *pert, by
 			if p.ex == "AS" {
 				if p.stale {
 					// a first, unperturbed login; its reply is replayed to the second login
-					w.k.Perturb = func(rp *simkdc.Reply) {}
+					w.k.Perturb = func(rp *simkdc.Reply) {
+						if rp.Error == nil && rp.Kind != "" {
+							// this client object never accepted the reply that is going to be replayed to it
+							fu.rejectedKeys = append(fu.rejectedKeys, append([]byte{}, rp.Enc.Key.Value...), append([]byte{}, rp.TktModel.Key.Value...))
+						}
+					}
 					cl0, _ := w.newClient(c)
 					if err := cl0.Login(); err != nil {
 						loginErr = fmt.Errorf("preparatory login failed: %v", err)
@@ -529,6 +595,9 @@ func runCase(t *testing.T, r *vh.Run, w *world, ck string, c cfgKey, p *pert, by
 				}
 				w.k.Perturb = perturb
 				loginErr = cl.Login()
+				if follow && loginErr != nil {
+					fu.afterRejectedAS(w, cl)
+				}
 				return
 			}
 			if loginErr = cl.Login(); loginErr != nil {
@@ -544,6 +613,9 @@ func runCase(t *testing.T, r *vh.Run, w *world, ck string, c cfgKey, p *pert, by
 				// the second request must not be served from the cache: ask for another principal the KDC knows
 				w.k.Perturb = perturb
 				_, _, tgsErr = cl.GetServiceTicket("HTTP/other.test.gokrb5")
+				if follow && tgsErr != nil {
+					fu.afterRejectedTGS(w, cl, "HTTP/other.test.gokrb5")
+				}
 				return
 			}
 			w.k.Perturb = perturb
@@ -552,6 +624,9 @@ func runCase(t *testing.T, r *vh.Run, w *world, ck string, c cfgKey, p *pert, by
 				spn = remoteSvc.String()
 			}
 			_, _, tgsErr = cl.GetServiceTicket(spn)
+			if follow && tgsErr != nil {
+				fu.afterRejectedTGS(w, cl, spn)
+			}
 		})
 		w.k.Perturb, w.k.ForceError, w.k.ForceErrorWhen = nil, 0, nil
 		if p.name == "krb-error-after-preauth" {
@@ -632,6 +707,13 @@ func runCase(t *testing.T, r *vh.Run, w *world, ck string, c cfgKey, p *pert, by
 			return
 		}
 		r.Inc("rejected_agreed")
+		if strings.HasPrefix(p.name, "nonce-") {
+			r.Inc("nonce_perturbations_rejected")
+		}
+		if strings.HasPrefix(p.name, "enc-usage-") {
+			r.Inc("usage_perturbations_rejected")
+		}
+		fu.judge(r, p, d)
 		if byt >= 0 {
 			r.Inc("cipher_byte_flips_rejected")
 		}
@@ -666,4 +748,130 @@ func carriesCode(err error, code int32) bool {
 	}
 	s := err.Error()
 	return strings.Contains(s, fmt.Sprintf("(%d) ", code)) || strings.Contains(s, fmt.Sprintf("ErrorCode %d", code))
+}
+
+// followUp is the second half of a two-step history on ONE client: a reply was rejected (the call returned an error), then
+// the KDC turns honest and the same client is asked again. Nothing of the rejected reply may reach the caller: not from the
+// ticket cache, not as the result of the next request for the same service, not as the TGT presented in a later TGS request.
+// The oracle only uses what the rejected replies carried (their session keys are fresh random values of the simulated KDC,
+// so a key met again later can only come from the rejected reply); everything else that may happen is counted, not judged.
+type followUp struct {
+	rejectedKeys  [][]byte // session keys carried by the replies that had to be rejected
+	rejectedNames []string // service names of the tickets in those replies
+	honestKeys    [][]byte // session keys of the honest replies sent after the rejection
+	ran           string   // "" | AS | TGS
+	cachedFrom    string   // GetCachedTicket(name) returned a rejected reply's session key
+	cachedOther   int      // GetCachedTicket returned something else
+	again         bool     // the second request succeeded
+	againErr      error    // or failed with
+	againRejected bool     // ... and returned a rejected reply's session key
+	againHonest   bool     // ... and returned the session key of an honest reply sent after the rejection
+	kdcRequests   int      // requests the KDC received for the second call
+	tgtRejected   bool     // a TGS request presented a TGT whose session key came from a rejected AS reply
+}
+
+func (f *followUp) in(list [][]byte, k []byte) bool {
+	for _, x := range list {
+		if len(k) > 0 && string(x) == string(k) {
+			return true
+		}
+	}
+	return false
+}
+
+func (f *followUp) honest(w *world) {
+	w.k.Perturb = func(rp *simkdc.Reply) {
+		if rp.Error == nil && rp.Kind != "" {
+			f.honestKeys = append(f.honestKeys, append([]byte{}, rp.Enc.Key.Value...))
+		}
+	}
+}
+
+// afterRejectedTGS: the TGS exchange for spn has just failed on a reply that had to be rejected.
+func (f *followUp) afterRejectedTGS(w *world, cl *client.Client, spn string) {
+	f.ran = "TGS"
+	f.honest(w) // a cache look-up may renew: from here on the KDC answers correctly
+	seen := map[string]bool{}
+	for _, name := range append([]string{spn}, f.rejectedNames...) {
+		if seen[name] {
+			continue
+		}
+		seen[name] = true
+		if _, key, ok := cl.GetCachedTicket(name); ok {
+			if f.in(f.rejectedKeys, key.KeyValue) {
+				f.cachedFrom = name
+			} else {
+				f.cachedOther++
+			}
+		}
+	}
+	n0 := len(w.k.Requests())
+	_, key, err := cl.GetServiceTicket(spn)
+	f.kdcRequests = len(w.k.Requests()) - n0
+	f.again, f.againErr = err == nil, err
+	if err == nil {
+		f.againRejected = f.in(f.rejectedKeys, key.KeyValue)
+		f.againHonest = f.in(f.honestKeys, key.KeyValue)
+	}
+}
+
+// afterRejectedAS: Login has just failed on a reply that had to be rejected; a service ticket is asked for (the client logs
+// in again on its own). No TGS request may present the TGT of the rejected reply.
+func (f *followUp) afterRejectedAS(w *world, cl *client.Client) {
+	f.ran = "AS"
+	f.honest(w)
+	n0 := len(w.k.Requests())
+	_, key, err := cl.GetServiceTicket(svc.String())
+	rqs := w.k.Requests()[n0:]
+	f.kdcRequests = len(rqs)
+	for _, rq := range rqs {
+		if rq.TGSTicket != nil && f.in(f.rejectedKeys, rq.TGSTicket.Key.Value) {
+			f.tgtRejected = true
+		}
+	}
+	f.again, f.againErr = err == nil, err
+	if err == nil {
+		f.againRejected = f.in(f.rejectedKeys, key.KeyValue)
+		f.againHonest = f.in(f.honestKeys, key.KeyValue)
+	}
+}
+
+func (f *followUp) judge(r *vh.Run, p *pert, d map[string]any) {
+	if f.ran == "" {
+		return
+	}
+	d["followup_cached_from_rejected_reply"] = f.cachedFrom
+	d["followup_second_request_err"] = fmt.Sprint(f.againErr)
+	d["followup_kdc_requests"] = f.kdcRequests
+	bad := false
+	if f.cachedFrom != "" {
+		bad = true
+		r.Violation("C09|rejected-reply-kept|"+p.ex+"|GetCachedTicket", "after a reply was rejected ("+p.name+") the client's ticket cache hands out the ticket and session key that reply carried (for "+f.cachedFrom+")", d)
+	}
+	if f.againRejected {
+		bad = true
+		r.Violation("C09|rejected-reply-served-later|"+p.ex, fmt.Sprintf("after a reply was rejected (%s) the next request for the same service succeeded with the session key of the rejected reply (the KDC received %d requests for it)", p.name, f.kdcRequests), d)
+	}
+	if f.tgtRejected {
+		bad = true
+		r.Violation("C09|rejected-reply-used-later|"+p.ex, "after an AS reply was rejected ("+p.name+") a later TGS request presented the TGT that reply carried", d)
+	}
+	if bad {
+		return
+	}
+	if f.ran == "TGS" {
+		if f.cachedOther > 0 {
+			r.Inc("observe_followup_cache_holds_a_ticket_not_from_the_rejected_reply")
+		} else {
+			r.Inc("followup_cache_clean_after_rejected_tgs_reply")
+		}
+	}
+	switch {
+	case !f.again:
+		r.Inc("observe_followup_second_request_failed_" + f.ran)
+	case f.againHonest:
+		r.Inc("followup_fresh_result_after_rejected_" + f.ran + "_reply")
+	default:
+		r.Inc("observe_followup_result_of_unknown_origin_" + f.ran)
+	}
 }
